@@ -55,6 +55,25 @@ THROW_SITES = [
     ("in-call", "(function () { throw 'C0'; }).call(null);"),
     ("in-apply", "(function () { throw 'A0'; }).apply(null, []);"),
 ]
+# every kind of thrown value (falsy ones included) through every way a throw crosses a boundary inside the engine
+_VALUES = {"zero": "0", "neg-zero": "-0", "empty-string": "''", "false": "false", "null": "null", "undefined": "undefined", "NaN": "NaN", "true": "true", "array": "[]"}
+_ROUTES = {"eval": "(0, eval)(%s);", "eval-in-eval": "(0, eval)(%s);", "Function": "new Function(%s)();", "callback": "[1].forEach(function () { %s });", "getter": "({get p() { %s }}).p;",
+           "valueOf": "1 + {valueOf: function () { %s }};", "comparator": "[2, 1].sort(function () { %s });", "replacer": "'a'.replace('a', function () { %s });", "call": "(function () { %s }).call(null);",
+           "ctor": "new (function () { %s })();", "eval-in-callback": "[1].map(function () { return (0, eval)(%s); });", "callback-in-eval": "(0, eval)(%s);"}
+for _vn, _v in _VALUES.items():
+    for _rn, _r in _ROUTES.items():
+        _t = "throw %s;" % _v
+        if _rn in ("eval", "Function"):
+            _site = _r % json.dumps(_t)
+        elif _rn == "eval-in-eval":
+            _site = _r % json.dumps("(0, eval)(%s);" % json.dumps(_t))
+        elif _rn == "eval-in-callback":
+            _site = _r % json.dumps(_t)
+        elif _rn == "callback-in-eval":
+            _site = _r % json.dumps("[1].forEach(function () { %s });" % _t)
+        else:
+            _site = _r % _t
+        THROW_SITES.append(("value-%s-via-%s" % (_vn, _rn), _site))
 
 HANDLERS = [
     ("same", "function f() { try { %s log('after-site'); } catch (e) { log('caught', desc(e)); } log('resumed'); } f();"),
